@@ -16,7 +16,7 @@ if os.path.exists(mp):
     except Exception as e:
         meta = {"agent_meta_unparsable": str(e)}
 meta["confirmed_by_main_session"] = {
-    "how": "tools/confirm_seed.sh in the sub-agent's scratch worktree: run_tests.sh with the change, run_demo.sh with the change, git stash + rebuild, run_demo.sh without it",
+    "how": "tools/confirm_seed.sh in the sub-agent's scratch worktree: run_tests.sh with the change, run_demo.sh with the change, reverse-apply the patch + rebuild, run_demo.sh without it",
     **conf}
 meta["property"] = meta.get("property", sid[:3])
 json.dump(meta, open(os.path.join(dst, "meta.json"), "w"), indent=1)
